@@ -2,7 +2,7 @@
    clean.  Statements only; the fan-out model of C01/C02. *)
 From Lal Require Import Common.LBytes Group.GroupMsg Group.GroupGopCache Group.GroupFanout
   Group.GroupGopCacheProofs Group.GroupFanoutProofs Group.GroupFanoutCacheProofs Group.GroupFanoutAdmitProofs
-  Group.GroupFanoutRestartProofs.
+  Group.GroupFanoutRestartProofs Group.GroupIdle Group.GroupIdleProofs.
 Open Scope N_scope.
 
 (* Teardown (delIn): the input is gone, the FLV recording is closed with its
@@ -42,6 +42,40 @@ Theorem c16_clean_restart : forall cf h1 h2 w,
   Forall (label_ge n1) (prologue (g_rtmp_cache s) w) /\ Forall (label_ge n1) (prologue (g_flv_cache s) w).
 Proof. exact restart_prologue_fresh. Qed.
 Print Assumptions c16_clean_restart.
+
+(* Idle check (Group.disposeInactiveSessions + BasicSessionStat.isAlive): at a
+   sweep (every 120th tick) a publisher whose connection read nothing since the
+   previous sweep is disposed, one that read something is kept; subscribers
+   likewise by written bytes; nobody at the first look, relay-push sessions
+   never, and nothing happens on other ticks.  All byte-counter values < 2^64. *)
+Theorem c16_idle_input_dropped : forall s r0 w0 k,
+  (k = SPubRtmp \/ k = SPubRtsp) -> ss_kind s = k ->
+  st_stale (ss_stat s) = Some (r0, w0) ->
+  ss_r s < 18446744073709551616 -> ss_w s < 18446744073709551616 -> r0 < 18446744073709551616 -> w0 < 18446744073709551616 ->
+  ss_closed (sweep_one s) = ss_closed s || (ss_r s =? r0).
+Proof. exact idle_input_dropped. Qed.
+Print Assumptions c16_idle_input_dropped.
+
+Theorem c16_stalled_subscriber_dropped : forall s r0 w0,
+  (ss_kind s = SSubRtmp \/ ss_kind s = SSubRtsp \/ ss_kind s = SSubFlv \/ ss_kind s = SSubTs) ->
+  st_stale (ss_stat s) = Some (r0, w0) ->
+  ss_r s < 18446744073709551616 -> ss_w s < 18446744073709551616 -> r0 < 18446744073709551616 -> w0 < 18446744073709551616 ->
+  ss_closed (sweep_one s) = ss_closed s || (ss_w s =? w0).
+Proof. exact stalled_subscriber_dropped. Qed.
+Print Assumptions c16_stalled_subscriber_dropped.
+
+Theorem c16_sweep_only_then : forall n l s,
+  (n mod check_interval <> 0 -> tick n l = l) /\
+  (st_stale (ss_stat s) = None -> ss_closed (sweep_one s) = ss_closed s) /\
+  (ss_kind s = SPush -> sweep_one s = s).
+Proof. intros n l s. split; [apply off_ticks_do_nothing|]. split; [apply first_sweep_keeps|apply push_never_swept]. Qed.
+Print Assumptions c16_sweep_only_then.
+
+(* a group is removable (ServerManager's tick disposes it) exactly when it has
+   no input, no output session and no relay pull pending *)
+Theorem c16_group_reaped : forall i o p, group_inactive i o p = true <-> i = false /\ o = false /\ p = false.
+Proof. exact group_inactive_iff. Qed.
+Print Assumptions c16_group_reaped.
 
 (* the recording of an input holds exactly its non-empty messages: every step
    of an admitted consumer theorem of C01 applies to it as well; here the
